@@ -6,6 +6,23 @@ BASELINE = ("cd /repo && cargo nextest run --workspace --no-fail-fast --tool-con
             "--profile pb --test-threads 8 --offline")
 TECH = "contract-based deductive verification: Verus (Z3) on functions of /repo extracted mechanically on every run"
 CLAIMED = {
+ "C15": dict(
+   text=("Partial claim — the glue pavex itself wrote around the third-party decoders. Verus discharges, on the real text of "
+         "PathParams::extract (loop invariant, unbounded number of parameters), EncodedParamValue::{new, decode, as_str}, "
+         "RawPathParamsIter::next, QueryParams::extract and query_params::parse: every raw path segment is percent-decoded EXACTLY "
+         "ONCE (pct_decode applied once, uninterpreted), parameter names and order are kept, the deserializer is built from exactly the "
+         "decoded pairs, a segment that is not UTF-8 after decoding yields InvalidUtf8InPathParameter naming the first offending "
+         "parameter and its raw segment, the iterator hands the raw segment on untouched, and the query string (empty when absent) is "
+         "given to serde_html_form as it is; JsonBody/UrlEncodedBody::extract are under contract in C14's unit. Everything the "
+         "statement says about VALUES (by-name matching, numbers/booleans/strings kept, wrong types rejected) lives in PathDeserializer "
+         "and third-party serde code that no contract reaches: covered by a BOUNDED native stand-in only (20k/200k pseudo-random "
+         "encoded path parameter sets through the real matchit router, 10k/100k query strings + forms + JSON bodies, malformed inputs), "
+         "labelled bounded in the evidence and never counted as proved."),
+   note=("NOT decided deductively: PathDeserializer (800-line serde Deserializer generic over every Visitor), percent_encoding, "
+         "form_urlencoded, serde_html_form, serde_json. Assumed: decode_utf8 = one application of percent-decoding + UTF-8 validation; "
+         "RawPathParams::iter yields matchit's pairs in route order; serde deserializers are functions of their input only; "
+         "`id.into()` (&str -> String) and `Option<&str>::unwrap_or_default()` retyped to stand-in calls (rule N7, vstd lacks the specs)."),
+   design="§3/C15"),
  "C19": dict(
    text=("Partial claim — the builder-API -> schema half. Verus discharges, on the real text of all 17 registration methods of "
          "Blueprint, of RoutingModifiers (prefix/domain/nest/routes), of every Registered* modifier (error_handler, lifecycle, "
